@@ -14,6 +14,7 @@ import (
 	"time"
 
 	"github.com/ClickHouse/ch-go"
+	"github.com/ClickHouse/ch-go/proto"
 	"pgregory.net/rapid"
 
 	"verif/harness/ref"
@@ -198,6 +199,11 @@ func TestC10HandshakeCancellation(t *testing.T) {
 			e.srv.Manual = true
 			e.srv.Steps = []simnet.Step{e.helloStep()}
 			serverAnswers := rapid.Bool().Draw(rt, "server-answers")
+			// The peer may stop reading after its hello: the client's next write (the addendum) then blocks.
+			stallAfterHello := serverAnswers && rapid.Bool().Draw(rt, "peer-stops-reading-after-hello")
+			if stallAfterHello {
+				e.srv.Steps[0].Then = func(cn *simnet.Conn) { cn.StallWrites() }
+			}
 			cancelStep := rapid.IntRange(0, 12).Draw(rt, "cancel-at-step")
 			viaDial := rapid.Bool().Draw(rt, "via-dial")
 			ctx, cancel := context.WithCancel(context.Background())
@@ -260,8 +266,8 @@ func TestC10HandshakeCancellation(t *testing.T) {
 			}
 			sched.Off()
 			<-done
-			st.Case(stats.Hash("c10h", strings.Join(trace, " "), serverAnswers, viaDial), canceled && err != nil, func() any {
-				return map[string]any{"kind": "cancelled-handshake", "server_answers": serverAnswers, "via_dial": viaDial, "schedule": strings.Join(trace, " "), "error": fmt.Sprint(err)}
+			st.Case(stats.Hash("c10h", strings.Join(trace, " "), serverAnswers, viaDial, stallAfterHello), canceled && err != nil, func() any {
+				return map[string]any{"kind": "cancelled-handshake", "server_answers": serverAnswers, "peer_stops_reading_after_hello": stallAfterHello, "via_dial": viaDial, "schedule": strings.Join(trace, " "), "error": fmt.Sprint(err)}
 			})
 			if err == nil {
 				client.Close()
@@ -286,6 +292,117 @@ func TestC10HandshakeCancellation(t *testing.T) {
 			if leaks := leakedGoroutines(); len(leaks) > 0 {
 				rt.Fatalf("%d goroutine(s) outlive the cancelled handshake:\n%s", len(leaks), strings.Join(leaks, "\n---\n"))
 			}
+		})
+	})
+}
+
+
+// TestC10StreamingCancel: the server keeps streaming packets with gaps shorter than
+// the read timeout (so reads never time out); a plain cancel() must still end the
+// query promptly, with a Cancel packet and a closed connection (ungated).
+func TestC10StreamingCancel(t *testing.T) {
+	st := stats.G()
+	rapid.Check(t, func(rt *rapid.T) {
+		rapid.SyncTest(rt, func(rt *rapid.T) {
+			comp := compModes[rapid.SampledFrom([]int{0, 2}).Draw(rt, "compression")]
+			readTO := rapid.SampledFrom([]time.Duration{200 * time.Millisecond, time.Second}).Draw(rt, "read-timeout")
+			gap := time.Duration(rapid.IntRange(1, 40).Draw(rt, "gap-ms")) * time.Millisecond
+			// the 1500-packet stream lasts 1500 x gap; the cancellation falls inside its first three quarters
+			cancelAfter := time.Duration(rapid.IntRange(0, min(3000, int(gap/time.Millisecond)*1500*3/4)).Draw(rt, "cancel-after-ms")) * time.Millisecond
+			inCallback := rapid.Bool().Draw(rt, "cancel-inside-callback")
+			kind := rapid.SampledFrom([]string{"progress", "data", "log"}).Draw(rt, "streamed-packet")
+			e := newEnv(54460)
+			defer e.conn.ForceClose()
+			cols := drawInput(rt, "col", 1, 1)
+			var it Item
+			switch kind {
+			case "progress":
+				it = Item{Kind: "progress", Progress: ref.Progress{Rows: 1, Bytes: 1}}
+			case "data":
+				it = Item{Kind: "data", Block: modelBlock(cols)}
+			case "log":
+				it = Item{Kind: "log", Logs: []logRow{{Time: 1, Host: "h", QueryID: "q", Source: "s", Text: "t"}}}
+			}
+			const n = 1500 // 1500 packets x gap outlasts every cancellation instant drawn above
+			for i := 0; i < n; i++ {
+				var when func(*ref.ClientStream) bool
+				if i == 0 {
+					when = simnet.AfterQuery(1)
+				}
+				stp := itemStep(it, when, comp.Method, nil)
+				stp.Delay = gap
+				e.srv.Steps = append(e.srv.Steps, stp)
+			}
+			e.srv.Steps = append(e.srv.Steps, itemStep(Item{Kind: "eos"}, nil, 0, nil))
+			opt := baseOptions(54460, comp)
+			opt.ReadTimeout = readTO
+			client, err := e.connect(context.Background(), opt)
+			if err != nil {
+				rt.Fatalf("connect: %v", err)
+			}
+			ctx, cancel := context.WithCancel(context.Background())
+			defer cancel()
+			var tc time.Time
+			start := time.Now()
+			seen := 0
+			afterCancel := 0
+			onPacket := func() {
+				seen++
+				if !tc.IsZero() {
+					afterCancel++
+				}
+				if inCallback && tc.IsZero() && time.Since(start) >= cancelAfter {
+					tc = time.Now()
+					cancel()
+				}
+			}
+			var res proto.Results
+			for _, c := range cols {
+				res = append(res, proto.ResultColumn{Name: c.name, Data: c.kind.New().Column()})
+			}
+			q := ch.Query{Body: "SELECT stream", Result: res,
+				OnResult:   func(ctx context.Context, b proto.Block) error { onPacket(); return nil },
+				OnProgress: func(ctx context.Context, p proto.Progress) error { onPacket(); return nil },
+				OnLogs:     func(ctx context.Context, l []ch.Log) error { onPacket(); return nil },
+			}
+			if !inCallback {
+				go func() {
+					time.Sleep(cancelAfter)
+					tc = time.Now()
+					cancel()
+				}()
+			}
+			derr := doBounded(rt, e, client, ctx, q, 5*time.Minute, "streaming server, cancel")
+			if derr == nil {
+				rt.Fatalf("query over a %d-packet stream returned nil although it was cancelled after %v", n, cancelAfter)
+			}
+			if !errors.Is(derr, context.Canceled) {
+				rt.Fatalf("Do error %q does not match context.Canceled", derr)
+			}
+			if lim := readTO + 2*time.Second; time.Since(tc) > lim {
+				rt.Fatalf("Do returned %v after cancel() while the server kept streaming %s packets every %v; limit readTimeout+2s = %v (%d packets were processed after the cancellation)", time.Since(tc), kind, gap, lim, afterCancel)
+			}
+			synctest.Wait()
+			if !client.IsClosed() || e.conn.NumCloseCalls() == 0 {
+				rt.Fatalf("after cancellation IsClosed()=%v, Close calls=%d", client.IsClosed(), e.conn.NumCloseCalls())
+			}
+			writes, _ := e.conn.Snapshot()
+			foundCancel := false
+			for _, w := range writes {
+				if string(w.Attempt) == "\x03" {
+					foundCancel = true
+				}
+			}
+			if !foundCancel {
+				rt.Fatalf("no Cancel packet was written")
+			}
+			if leaks := leakedGoroutines(); len(leaks) > 0 {
+				rt.Fatalf("%d goroutine(s) outlive the call:\n%s", len(leaks), strings.Join(leaks, "\n---\n"))
+			}
+			st.Case(stats.Hash("c10s", comp.Name, readTO, gap, cancelAfter, inCallback, kind), true, func() any {
+				return map[string]any{"kind": "cancel-during-streaming", "packet": kind, "gap": gap.String(), "read_timeout": readTO.String(), "cancel_after": cancelAfter.String(),
+					"inside_callback": inCallback, "packets_seen": seen, "packets_after_cancel": afterCancel}
+			})
 		})
 	})
 }
